@@ -4,7 +4,8 @@ import json, subprocess, sys, os
 pid = sys.argv[1]
 k = sys.argv[2] if len(sys.argv) > 2 else "3"
 prop = [json.loads(l) for l in open("/verif/properties.jsonl") if json.loads(l)["id"] == pid][0]
-wt = f"/tmp/wt/{pid}"
+base = os.environ.get("MUT_BASE", "/tmp/wt")
+wt = f"{base}/{pid}"
 if not os.path.isdir(wt):
     subprocess.check_call(["git", "-C", "/repo", "worktree", "add", "-q", "--detach", wt, "HEAD"])
 print(f"""You are testing how well a semantic property of a Python code base is protected. Work ONLY inside the scratch git worktree {wt} (a checkout of alpha-unito/streamflow, a Python asyncio workflow management system that translates CWL into a token-based dataflow graph, schedules jobs on container/HPC/cloud locations and recovers failures). Never touch /repo or /verif, and do not read anything under /verif. The interpreter /venv/bin/python has all dependencies; when run with the worktree as current directory it imports the worktree's `streamflow` package. There is no network, no docker, no ssh.
@@ -13,7 +14,7 @@ The property (it is supposed to hold for every input / schedule / history named 
 
 {json.dumps(prop, indent=1)}
 
-Your task: produce {k} DIFFERENT, independent, realistic source changes ("mutations") to files under {wt}/streamflow that each BREAK this property while the code still imports/compiles and the existing stable test suite still passes. Each should look like a plausible refactoring slip, an optimisation, an off-by-one, a dropped/mis-ordered statement, a wrong condition, or two cooperating edits that each look fine alone. Prefer changes that need something specific to manifest (a particular interleaving, a crash or fault at a particular point, a multi-step sequence of operations, an unusual input such as 10+ elements / names with spaces / nested structures, or two cooperating sites) rather than ones any ordinary run exposes at once. Keep each change small (1-15 changed lines). Make the {k} changes different in kind and, where possible, in different functions.
+Your task: produce {k} DIFFERENT, independent, realistic source changes ("mutations") to files under {wt}/streamflow that each BREAK this property while the code still imports/compiles and the existing stable test suite still passes. Each should look like a plausible refactoring slip, an optimisation, an off-by-one, a dropped/mis-ordered statement, a wrong condition, or two cooperating edits that each look fine alone. Prefer changes that need something specific to manifest (a particular interleaving, a crash or fault at a particular point, a multi-step sequence of operations, an unusual input such as 10+ elements / names with spaces / nested structures, or two cooperating sites) rather than ones any ordinary run exposes at once. Keep each change small (1-15 changed lines). Make the {k} changes different in kind and, where possible, in different functions. {os.environ.get('MUT_HINT', '')}
 
 For each mutation i = 1..{k}:
  1. Start from a clean tree (`git -C {wt} checkout -- . && git -C {wt} clean -fdq -e _mut`).
